@@ -179,6 +179,45 @@ def build_fixed(kind, md):
     raise ValueError(kind)
 
 
+def cli_conversions(ctx):
+    import logging
+    from AegeanTools.CLI import MIMAS as cli
+    tmp = os.environ["VERIF_SCRATCH"]
+    logging.disable(logging.CRITICAL)
+    for md, variant in [(4, "fresh"), (7, "fresh"), (7, "after_query"), (10, "after_query")]:
+        reg, model = build_fixed("circle", md)
+        if variant == "after_query":
+            reg.sky_within(0.1, 0.1)
+        fm, ff, fr = [os.path.join(tmp, "cli12." + e) for e in ("mim", "fits", "reg")]
+        reg.save(fm)
+        ctx.count("cli_conversions")
+        sig = "cli|circle@%d,%s" % (md, variant)
+        try:
+            cli.main(["--mim2fits", fm, ff])
+            cli.main(["--mim2reg", fm, fr])
+            with fits.open(ff) as hl:
+                vals = [int(v) for v in hl[1].data["NPIX"]]
+                order = hl[1].header.get("MOCORDER")
+            got = set()
+            for o, ip in hpset.uniq_decode(vals):
+                got |= hpset.descend([ip], o, md)
+            nlines = len([l for l in open(fr) if l.strip()])
+            stored = sum(len(s_) for s_ in Region.load(fm).pixeldict.values())
+            if got != set(model) or order != md:
+                ctx.violation("MIMAS --mim2fits: decoded MOC has %d pixels (order %r), region %d (depth %d)" % (len(got), order, len(model), md),
+                              "cli_mim2fits|" + sig, clause="fixed", case=dict(kind="circle", maxdepth=md, variant=variant))
+            if nlines != stored:
+                ctx.violation("MIMAS --mim2reg: %d polygons for %d stored pixels" % (nlines, stored), "cli_mim2reg|" + sig, clause="fixed",
+                              case=dict(kind="circle", maxdepth=md, variant=variant))
+        except SystemExit:
+            pass
+        except Exception as e:
+            ctx.violation("MIMAS CLI conversion raised %r (%s)" % (e, sig), "cli_raise|" + sig, clause="fixed", case=dict(kind="circle", maxdepth=md, variant=variant))
+        for f in (fm, ff, fr):
+            if os.path.exists(f):
+                os.remove(f)
+
+
 def main(tier, seed, t0):
     depth = 2 if tier == "quick" else 3
     ctx = core.Ctx(PROPERTY, tier, seed, level=LEVEL)
@@ -231,6 +270,8 @@ def main(tier, seed, t0):
             for v in check_exports(r, model, label, os.environ["VERIF_SCRATCH"], do_reg=npx <= 400 and variant == "fresh" or len(model) <= 400):
                 ctx.violation("%s (%s)" % (v["what"], variant), "%s|%s,%s" % (v["kind"], label, variant), clause="fixed",
                               case=dict(kind=kind, maxdepth=md, variant=variant))
+    # the MIMAS command line conversions (--mim2fits, --mim2reg) on regions before and after a demoting query
+    cli_conversions(ctx)
     ctx.evaluations = len(results) + 2 * len(fixed_regions(tier))
     ctx.nontrivial_counted = len(results) + len(fixed_regions(tier))
     ctx.samples = [dict(history=h) for h in res.samples] + [dict(fixed=fixed_regions(tier)[5][0])]
